@@ -482,7 +482,18 @@ func runPass(def *CheckDef, tier string, seed uint64, exe, mode string, limit in
 		go func(w int) {
 			defer wg.Done()
 			startAfter := -1
+			hangs := 0
 			for gen := 0; gen < 80; gen++ {
+				if hangs >= 3 {
+					// three cases of this worker made no progress for the whole
+					// watchdog period: the verdict (violated where the statement
+					// says the call returns, inconclusive elsewhere) stands, and
+					// running the rest of its share would only add hours
+					mu.Lock()
+					merged.Counters["workers_stopped_after_three_hangs"]++
+					mu.Unlock()
+					return
+				}
 				errFile := filepath.Join(dir, fmt.Sprintf("w%d.g%d.stderr", w, gen))
 				ef, _ := os.Create(errFile)
 				cmd := exec.Command(exe, "worker", def.ID, "--tier", tier, "--seed", strconv.FormatUint(seed, 10),
@@ -515,6 +526,7 @@ func runPass(def *CheckDef, tier string, seed uint64, exe, mode string, limit in
 				tail := tailFile(errFile, 6000)
 				mu.Lock()
 				if hasRes && res.Hang != nil {
+					hangs++
 					v := Violation{Prop: def.ID, Fingerprint: def.ID + "/hang", CaseIdx: *res.Hang,
 						Detail: map[string]interface{}{"what": "case made no progress within the watchdog limit", "note": note, "stderr_tail": tail, "build_mode": mode}}
 					if def.HangIsViolation {
